@@ -82,7 +82,11 @@ type gen struct {
 func (g *gen) v() string { return fmt.Sprintf("v%d", g.r.Intn(3)) }
 
 func (g *gen) cond() string {
-	switch g.r.Intn(8) {
+	switch g.r.Intn(10) {
+	case 8:
+		return "idf(1) == 1" // a call in value position: polls inside the evaluation of an expression
+	case 9:
+		return fmt.Sprintf("idf(%d) == 1", g.r.Intn(2))
 	case 0:
 		return "true"
 	case 1:
@@ -135,6 +139,10 @@ func (g *gen) stmt(depth int, inLoop bool) plgen.Stmt {
 	switch {
 	case c < 30 || depth >= g.maxDepth && c < 70:
 		g.nextP++
+		if g.r.Intn(5) == 0 {
+			// the effect's argument is itself a call
+			return plgen.Stmt{K: "raw", N: g.nextP, Arg: fmt.Sprintf("q(idf(%d))", g.nextP)}
+		}
 		return plgen.Stmt{K: "p", N: g.nextP}
 	case c < 42:
 		return plgen.Stmt{K: "inc", V: g.v()}
@@ -205,6 +213,19 @@ func (g *gen) stmt(depth int, inLoop bool) plgen.Stmt {
 			s.Else = g.block(depth+1, inLoop, 2)
 		}
 		return s
+	}
+}
+
+// effectID maps the value an effect saw to an effect id: the integer itself, or a marker for
+// "no value" / another type (which no uninterrupted run produces).
+func effectID(v any) int64 {
+	switch x := v.(type) {
+	case int64:
+		return x
+	case nil:
+		return -999999
+	default:
+		return -999998
 	}
 }
 
@@ -436,8 +457,23 @@ func (Prop) Run(p *core.Plan) *core.Result {
 				"p": func(ctx *runtime.Task, e *ast.CallExpr) *errchain.PlError {
 					rn.record(e.Param[0].IntegerLiteral().Val)
 					return nil
+				},
+				// q(expr): the effect is the value of its argument; idf(n) returns n
+				"q": func(ctx *runtime.Task, e *ast.CallExpr) *errchain.PlError {
+					v, _, err := runtime.RunStmt(ctx, e.Param[0])
+					if err != nil {
+						return err
+					}
+					rn.record(effectID(v))
+					return nil
+				},
+				"idf": func(ctx *runtime.Task, e *ast.CallExpr) *errchain.PlError {
+					ctx.Regs.ReturnAppend(e.Param[0].IntegerLiteral().Val, ast.Int)
+					return nil
 				}}, map[string]runtime.FuncCheck{
-				"p": func(ctx *runtime.Task, e *ast.CallExpr) *errchain.PlError { return nil }})
+				"p":   func(ctx *runtime.Task, e *ast.CallExpr) *errchain.PlError { return nil },
+				"q":   func(ctx *runtime.Task, e *ast.CallExpr) *errchain.PlError { return nil },
+				"idf": func(ctx *runtime.Task, e *ast.CallExpr) *errchain.PlError { return nil }})
 			scripts, errs := engine.ParseScript(src, calls, checks)
 			if len(errs) > 0 {
 				return &core.Result{Infra: fmt.Sprintf("generated program rejected by the v1 loader: %v\n%s", errs, src["main.p"])}
@@ -453,6 +489,26 @@ func (Prop) Run(p *core.Plan) *core.Result {
 			fn := map[string]*runtimev2.Fn{"p": {
 				Call: func(ctx *runtimev2.Task, e *ast.CallExpr) *errchain.PlError {
 					rn.record(e.Param[0].IntegerLiteral().Val)
+					return nil
+				},
+				CallCheck: func(ctx *runtimev2.Task, e *ast.CallExpr) *errchain.PlError { return nil },
+			}, "q": {
+				Call: func(ctx *runtimev2.Task, e *ast.CallExpr) *errchain.PlError {
+					if err := runtimev2.RunExpr(ctx, e.Param[0]); err != nil {
+						return err
+					}
+					v, rerr := ctx.Regs.GetRet()
+					if rerr != nil {
+						rn.record(effectID(nil))
+						return nil
+					}
+					rn.record(effectID(v.V))
+					return nil
+				},
+				CallCheck: func(ctx *runtimev2.Task, e *ast.CallExpr) *errchain.PlError { return nil },
+			}, "idf": {
+				Call: func(ctx *runtimev2.Task, e *ast.CallExpr) *errchain.PlError {
+					ctx.Regs.ReturnAppend(runtimev2.V{V: e.Param[0].IntegerLiteral().Val, T: ast.Int})
 					return nil
 				},
 				CallCheck: func(ctx *runtimev2.Task, e *ast.CallExpr) *errchain.PlError { return nil },
